@@ -31,11 +31,14 @@ XT = 1e-9
 
 def floors(tier):
     return {"splits_checked": 700, "zero_iteration_restarts": 700, "next_iterate_compared": 600, "chains_checked": 350,
-            "reduced_maxcor_checked": 250, "full_memory_restarts_after_a_reduced_one": 250, "splits_with_2plus_pairs": 350, "splits_right_after_a_rejected_pair": 8, "problems_in_huge_units_with_lowered_curvature_threshold_and_inert_update_function": 30, "__nontrivial__": 250}
+            "reduced_maxcor_checked": 250, "full_memory_restarts_after_a_reduced_one": 250, "splits_with_2plus_pairs": 350, "splits_right_after_a_rejected_pair": 8, "splits_at_the_iteration_of_a_memory_refresh": 6, "problems_in_huge_units_with_lowered_curvature_threshold_and_inert_update_function": 30, "__nontrivial__": 250}
 
 
 def cases(tier, seed):
     rng = np.random.default_rng(subseed("C06", seed))
+    for i in range(400 if tier == "quick" else 12000):
+        ps = gen.rand_spec(rng, ("scaled_rosenbrock",), nmax=6, nmin=2, boxes=("none", "none", "lower"), starts=("interior",))
+        yield {"kind": "refresh", "problem": ps, "maxcor": int(rng.integers(3, 10)), "K": 40}
     nprob = 360 if tier == "quick" else 8000
     for i in range(nprob):
         ps = gen.rand_spec(rng, FAMS, nmax=8, nmin=2, boxes=("none", "mixed", "boxed", "lower", "upper"),
@@ -58,6 +61,50 @@ def cases(tier, seed):
                # an objective in huge units (values ~1e17..1e19: curvature ratios s.y/y.y far below the default threshold) run with a
                # curvature threshold lowered accordingly and an update function that changes nothing
                "huge_units": float(10 ** rng.uniform(16.5, 19.0)) if (i % 6 == 1) else None}
+
+
+def run_refresh(spec, out):
+    """Split points at the very iterations in which the run refreshed its memory (variables on length scales 1e-8 .. 1e16: the middle
+    matrix of the memory cannot always be factorised): the result of run(maxiter=k) then carries no pair, a restart from it has nothing
+    to restore, and its next iterates are those of the uninterrupted run digit for digit."""
+    from ..e2e import MESSAGES
+
+    P = gen.make_problem(spec["problem"])
+    tags = dict(family=P.spec["family"], kind="refresh")
+    base = dict(jac="callable", maxcor=spec["maxcor"], maxls=20, ftol=0.0, gtol=0.0, maxfun=100000, x0_same_object=True)
+    name = f"{P.spec['family']} n={P.n} maxcor={spec['maxcor']}"
+    main_tr = probes.run_min(P, dict(base, maxiter=spec["K"], cb="never"))
+    out.count("runs_on_variables_of_wildly_different_scales")
+    if main_tr.exc is not None:
+        out.count("runs_raised")
+        return
+    prev_pairs, prev_nit = None, None
+    for r in main_tr.cb:
+        k = int(r["snap"]["nit"])
+        m = 0 if r["snap"]["sk"] is None else int(r["snap"]["sk"].shape[0])
+        refreshed = prev_pairs is not None and prev_pairs >= 2 and m == 0 and k == prev_nit + 1
+        prev_pairs, prev_nit = m, k
+        if not refreshed or k + 2 > spec["K"]:
+            continue
+        a = probes.run_min(P, dict(base, maxiter=k))
+        if a.exc is not None or a.result.message != MESSAGES["ITER"] or a.result.nit != k:
+            continue
+        out.count("splits_at_the_iteration_of_a_memory_refresh")
+        for k_end in (k + 1, k + 2):
+            u = probes.run_min(P, dict(base, maxiter=k_end))
+            rs = probes.run_min(P, dict(base, maxiter=k_end), checkpoint=a.result, x0=a.result.x)
+            out.count("splits_checked")
+            if rs.exc is not None or u.exc is not None:
+                out.violate("restart_raised", f"{name}: restart from the split at iteration {k} (memory just refreshed) raised {(rs.exc or u.exc)!r}", what="refresh", **tags)
+                return
+            e = relerr(rs.snap["x"], u.snap["x"])
+            if rs.snap["nit"] == u.snap["nit"] and not (e <= 1e-9):
+                out.violate("continuation_differs", f"{name}: split k={k} (the memory was refreshed in that iteration, 0 pairs): iterate {k_end} after restart differs "
+                            f"from the uninterrupted run by {e:.3e}", what="refresh", **tags)
+                return
+        out.nontrivial = True
+    out.key = f"refresh/{P.spec['seed']}/{spec['maxcor']}"
+    out.sample = dict(spec=spec, callbacks=len(main_tr.cb))
 
 
 def relerr(a, b):
@@ -122,6 +169,9 @@ def run(spec):
     from ..e2e import MESSAGES
 
     out = Outcome()
+    if spec.get("kind") == "refresh":
+        run_refresh(spec, out)
+        return out
     P = gen.make_problem(spec["problem"])
     base = dict(jac=spec.get("jac", "callable"), maxcor=spec["maxcor"], maxls=spec["maxls"], ftol=0.0, gtol=1e-12,
                 maxfun=spec.get("maxfun", 100000), eps=spec.get("eps", 1e-8), eps_SY=spec.get("eps_SY", 2.2e-16), x0_same_object=True)
